@@ -55,6 +55,14 @@ func (e *Engine) TrimSuffix() {
 	}
 
 	suf := (*e.line)[e.cursor.Pos()-1]
+
+	// Only a character that is one of the suffixes can be removed:
+	// a candidate not ended by any of them is kept as it is.
+	if !e.sm.Matches(string(suf)) {
+		e.sm = SuffixMatcher{}
+		return
+	}
+
 	keys := e.keys.Caller()
 	key := keys[0]
 
